@@ -226,7 +226,8 @@ def gen(ck):
                         pairs += [(a, b) for a in special for b in ('0', '2', '-1', 'None', '2**63') if b in bvals or b in ('0', '2', '-1')]
                         pairs += [(a, b) for b in special for a in ('0', '1', '-2', 'None', '-2**63') if a in bvals or a in ('0', '1', '-2')]
                         if bk != 'object':
-                            pairs = [(a, b) for a, b in pairs if a != 'None' and b != 'None' and '*' not in a and '*' not in b]
+                            # C-typed bounds only receive values their type can hold (conversion errors are C05's)
+                            pairs = [(a, b) for a, b in pairs if a in bvals and b in bvals]
                     elif len(names) == 1:
                         pairs = [(a,) for a in bvals]
                     else:
@@ -351,12 +352,13 @@ def classify(f, case, exp, got):
         # bound >= 2**63 (or < -2**63) reaches a plain Py_ssize_t conversion instead of the clamping slice protocol
         return 'huge-slice-bound-overflow:%s' % f.base
     if f.op in ('get', 'set', 'del') and f.base == 'object' and f.kind != 'object' and args \
-            and isinstance(args[0], (list, tuple)) and type(args[0]) not in (list, tuple) \
+            and type(args[0]) not in (list, tuple, dict, str, bytes, bytearray) \
             and ((ivs and ivs[0] is not None and ivs[0] < 0) or (f.kind == 'const' and f.form.startswith('-'))):
-        # C-integer index on an untyped object that is an instance of a (heap) subclass of list/tuple: the helper adds
-        # len() and calls sq_item/sq_ass_item, whose generic slot calls __getitem__/__setitem__/__delitem__ with the
-        # adjusted index (wrapping a second time, or showing the adjusted index to an override)
-        return 'negative-c-index-prewrapped-on-sequence-subtype:%s' % f.op
+        # C-integer index on an untyped object: the helper adds len() itself and then calls sq_item/sq_ass_item; for heap
+        # subclasses of list/tuple that slot calls __getitem__/__setitem__/__delitem__ with the adjusted index, for
+        # range/memoryview sq_item wraps negative indices itself - either way an index < -len is wrapped twice (or an
+        # overriding hook sees the adjusted index)
+        return 'negative-c-index-wrapped-twice:%s' % f.op
     if f.op == 'set' and f.base == 'bytearray' and f.kind != 'object' and args:
         v = args[-1]
         if not (type(v) is int and 0 <= v < 256):
